@@ -257,6 +257,10 @@ def run(ctx):
         d = impl.decode(spec, 'A', r[1])
         if d[0] != 'ok':
             ctx.violation('der: own output is not decodable', {'module': text, 'value': repr(v), 'encoded': r[1].hex(), 'error': d[1:]})
+    # (c) the generator's types under explicit tagging vs the independent X.690 encoder of harness/tagged.py
+    from .. import tagged
+    from ..gen import Gen, Opts
+    tagged.run(ctx, 'C03', ctx.rng, ctx.n(250, 4000), impl, ['der'], Gen, Opts, module_text)
     # regression vectors of the two repaired defects
     w = 'M DEFINITIONS ::= BEGIN A ::= SET OF INTEGER B ::= SET { a OCTET STRING, b BOOLEAN } END'
     st, spec = impl.compile_text(w, 'der')
